@@ -167,7 +167,6 @@ impl SimdVisitor<u32, SimdAabb> for RayVisitor {
 /// Performs a ray cast except that it does not fail with negative t values.
 fn cast_ray(bv: &SimdAabb, ray: &SimdRay) -> (SimdBool, SimdReal) {
     let zero = SimdReal::splat(0.0);
-    let one = SimdReal::splat(1.0);
     let infinity = SimdReal::splat(f64::MAX);
 
     let mut hit = SimdBool::splat(true);
@@ -179,11 +178,12 @@ fn cast_ray(bv: &SimdAabb, ray: &SimdRay) -> (SimdBool, SimdReal) {
         let is_not_zero = ray.dir[i].simd_ne(zero);
         let is_zero_test = ray.origin[i].simd_ge(bv.mins[i]) & ray.origin[i].simd_le(bv.maxs[i]);
         let is_not_zero_test = {
-            let denom = one / ray.dir[i];
+            // Divide instead of multiplying by the reciprocal: for a sub-normal direction component the reciprocal
+            // overflows to infinity, and an origin lying exactly on a box face then gives 0 * inf = NaN
             let mut inter_with_near_plane =
-                ((bv.mins[i] - ray.origin[i]) * denom).select(is_not_zero, -infinity);
+                ((bv.mins[i] - ray.origin[i]) / ray.dir[i]).select(is_not_zero, -infinity);
             let mut inter_with_far_plane =
-                ((bv.maxs[i] - ray.origin[i]) * denom).select(is_not_zero, infinity);
+                ((bv.maxs[i] - ray.origin[i]) / ray.dir[i]).select(is_not_zero, infinity);
 
             let gt = inter_with_near_plane.simd_gt(inter_with_far_plane);
             simd_swap(gt, &mut inter_with_near_plane, &mut inter_with_far_plane);
